@@ -133,8 +133,11 @@ where
         Err(e) => return Err(V::new("C20/roundtrip-failed", format!("{ctx}: {v:?} does not decode back: {e:?}"))),
     }
     acc.tally("roundtrips", 1);
-    // (2) every buffer size 0..=len
+    // (2) every buffer size 0..=len (under Miri: every 5th, plus the ends)
     for s in 0..=len {
+        if cfg!(miri) && s % 5 != 0 && s + 2 < len {
+            continue;
+        }
         let mut lim = Vec::new().limit(s);
         let res = guarded(&format!("{ctx} encode into {s}/{len} bytes"), || v.enc(c, &mut lim))?;
         let inner = lim.into_inner();
@@ -148,6 +151,9 @@ where
     acc.tally("limit_sizes_tried", len as u64 + 1);
     // (3) every truncation decodes to a value or an error, never a panic
     for cut in 0..len {
+        if cfg!(miri) && cut % 5 != 0 {
+            continue;
+        }
         let mut cur: &[u8] = &buf[..cut];
         let res = guarded(&format!("{ctx} decode truncation {cut}/{len}"), || K::dec(c, &mut cur))?;
         if res.is_ok() {
@@ -206,6 +212,13 @@ fn one_type<T: GenId>(r: &mut Rng64, acc: &mut Acc) -> Verdict {
 
 pub fn codec_case(ctx: &Ctx, case: u64, acc: &mut Acc) -> Verdict {
     let mut r = Rng64::derive(ctx.seed, 0xC20, case);
+    if cfg!(miri) {
+        // the interpreter is ~4 orders of magnitude slower: one identity type per case, smaller values
+        return match case % 2 {
+            0 => one_type::<Id>(&mut r, acc),
+            _ => one_type::<SocketAddr>(&mut r, acc),
+        };
+    }
     match case % 3 {
         0 => one_type::<Id>(&mut r, acc),
         1 => one_type::<SocketAddr>(&mut r, acc),
